@@ -115,7 +115,8 @@ Definition MetaSpec (lk : lookup) (target : list N) (f : list pentry) (txns : li
      pr_target r = target /\
      match lk with
      | LkTxnTime => pr_used r = None
-     | _ => exists e, RateAt lk f target (pr_source r) 0 e /\ pr_used r = Some (pe_ts e, pe_rate e)
+     | _ => exists e rate, RateAt lk f target (pr_source r) 0 e /\
+                          pr_used r = Some (pe_ts e, rate) /\ dcmp rate (pe_rate e) = Eq   (* same value *)
      end).
 
 Definition has_rate_b (lk : lookup) (f : list pentry) (target c : list N) : bool :=
@@ -132,7 +133,7 @@ Definition rec_ok_b (lk : lookup) (target : list N) (f : list pentry) (r : prec)
   match lk with
   | LkTxnTime => match pr_used r with None => true | Some _ => false end
   | _ => match rate_at lk f target (pr_source r) 0, pr_used r with
-         | Some e, Some (ts, rate) => (ts =? pe_ts e) && drepr_eqb rate (pe_rate e)
+         | Some e, Some (ts, rate) => (ts =? pe_ts e) && deqb rate (pe_rate e)
          | _, _ => false
          end
   end.
